@@ -6,7 +6,7 @@ VERUS_UNITS = {
     'config': dict(template='contracts/config.rs', props=['C17', 'C05', 'C06', 'C08'], rlimit=30),
     'sync_admit': dict(template='contracts/sync_admit.rs', props=['C12', 'C13', 'C04', 'C08'], rlimit=30),
     'deque_lift': dict(template='contracts/deque_lift.rs', props=['C08', 'C11', 'C12'], rlimit=30),
-    'sync_maint': dict(template='contracts/sync_maint.rs', props=['C03', 'C04', 'C05', 'C06', 'C07', 'C08', 'C10', 'C11', 'C12', 'C13'], rlimit=50),
+    'sync_maint': dict(template='contracts/sync_maint.rs', props=['C03', 'C04', 'C05', 'C06', 'C07', 'C08', 'C10', 'C11', 'C12', 'C13', 'C14', 'C15'], rlimit=50),
     'sync': dict(template='contracts/sync.rs', props=['C01', 'C03', 'C04', 'C05', 'C06', 'C07', 'C08', 'C10', 'C17'], rlimit=30),
     'udeques': dict(template='contracts/udeques.rs', props=['C01', 'C03', 'C05', 'C07', 'C08', 'C10', 'C11', 'C12', 'C13', 'C17'], rlimit=30),
     'unsync': dict(template='contracts/unsync.rs', props=['C01', 'C03', 'C04', 'C05', 'C06', 'C07', 'C08', 'C10', 'C11', 'C12', 'C13', 'C14', 'C15', 'C17'], rlimit=50),
